@@ -2,6 +2,7 @@
 from __future__ import annotations
 
 import os
+import time
 import re
 import sys
 import types
@@ -850,6 +851,18 @@ def m_cases(ctx: vlib.Ctx, n: int):
     return cases, descr
 
 
+def _bad_idx(*a, **kw):
+    """vlib.coq_bad_idx, run a second time when Coq did not answer at all (no `Error` in its output: the coqc process was killed,
+    e.g. by the machine's OOM killer, or hit its timeout under load).  A mismatch is a list of indices, never None: a retry cannot
+    hide one; a model that does not build reports its Coq error and is not retried."""
+    bad, log = vlib.coq_bad_idx(*a, **kw)
+    if bad is None and "Error" not in (log or ""):
+        time.sleep(5)
+        bad, log2 = vlib.coq_bad_idx(*a, **kw)
+        log = (log or "") + "\n[retried once after an empty / killed coqc]\n" + (log2 or "")
+    return bad, log
+
+
 def coq_part(ctx: vlib.Ctx):
     br = ctx.theorems("props/C20_schema.vo", THEOREMS + RT_THEOREMS + ["C20_override_noop", "C20_override_covered", "C20_override_origin_key", "C20_chain_mono", "C20_chain_total_partial", "C20_chain_total_refuted", "C20_chain_cycle_diverges", "C20_chain_agrees_flat", "C20_chain_covered", "C20_default_value_is_ref_enc", "C20_default_prerendered", "C20_default_scalars"], kernels=["K9"])
     if br.ok and not ctx.quick():
@@ -875,7 +888,7 @@ def coq_part(ctx: vlib.Ctx):
         return
     # (T) validation
     cases, descr = k9_cases(ctx, ctx.budget(700, 1500))
-    bad, log = vlib.coq_bad_idx(f"c20_k9_{ctx.seed}_{os.getpid()}", "PyK_schema SchemaGen K9Proofs SchemaCorr", "From VerifGen Require Import K9.", "", cases,
+    bad, log = _bad_idx(f"c20_k9_{ctx.seed}_{os.getpid()}", "PyK_schema SchemaGen K9Proofs SchemaCorr", "From VerifGen Require Import K9.", "", cases,
                                 "k9_ok", "k9case", shard=300, needs=["theories/SchemaCorr.vo"])
     if bad is None:
         ctx.correspondence("K9-translation-vs-python", len(cases), -1, log)
@@ -887,7 +900,7 @@ def coq_part(ctx: vlib.Ctx):
     ctx.count(n=len(cases))
     # (M) model vs implementation
     cases, descr = m_cases(ctx, ctx.budget(250, 2500))
-    bad, log = vlib.coq_bad_idx(f"c20_model_{ctx.seed}_{os.getpid()}", "PyK_schema SchemaGen K9Proofs SchemaCorr", "From VerifGen Require Import K9.", "", cases,
+    bad, log = _bad_idx(f"c20_model_{ctx.seed}_{os.getpid()}", "PyK_schema SchemaGen K9Proofs SchemaCorr", "From VerifGen Require Import K9.", "", cases,
                                 "corr_ok", "mcase", shard=125, needs=["theories/SchemaCorr.vo"])
     if bad is None:
         ctx.correspondence("schema-model-vs-build_json_schema", len(cases), -1, log)
@@ -897,7 +910,7 @@ def coq_part(ctx: vlib.Ctx):
         if bad:
             ctx.not_shown("correspondence schema-model-vs-build_json_schema", str([descr[i] for i in bad[:3]])[:2800])
         # how many of these cases lie outside the one-step fragment of overridden serialization (chains of replacements)
-        chained, _ = vlib.coq_bad_idx(f"c20_model_{ctx.seed}_{os.getpid()}_ch", "PyK_schema SchemaGen K9Proofs SchemaCorr", "From VerifGen Require Import K9.", "",
+        chained, _ = _bad_idx(f"c20_model_{ctx.seed}_{os.getpid()}_ch", "PyK_schema SchemaGen K9Proofs SchemaCorr", "From VerifGen Require Import K9.", "",
                                       cases, "fun c => negb (corr_chained c)", "mcase", shard=125, needs=["theories/SchemaCorr.vo"])
         ctx.notes.append(f"model correspondence: {len(chained) if chained is not None else '?'} of {len(cases)} class tables with a chain of replacements "
                          "(a replacement type that carries an overridden key); the others are checked against BOTH digests (one-step and chain)")
@@ -914,7 +927,7 @@ def coq_part(ctx: vlib.Ctx):
     real_docs = ctx.coverage.pop("_real_docs", [])
     rcases, rdescr = rt_cases(ctx, real_docs[: ctx.budget(300, 2000)], ctx.budget(400, 3000))
     rname = f"c20_rt_{ctx.seed}_{os.getpid()}"
-    rbad, rlog = vlib.coq_bad_idx(rname, "PyK_schema SchemaGen K9Proofs SchemaRoundtrip SchemaCorr", "From VerifGen Require Import K9.", "", rcases,
+    rbad, rlog = _bad_idx(rname, "PyK_schema SchemaGen K9Proofs SchemaRoundtrip SchemaCorr", "From VerifGen Require Import K9.", "", rcases,
                                   "rt_ok", "js * string", shard=250, needs=["theories/SchemaCorr.vo"])
     if rbad is None:
         ctx.correspondence("roundtrip-model-vs-JSONSchema", len(rcases), -1, rlog)
@@ -923,7 +936,7 @@ def coq_part(ctx: vlib.Ctx):
         ctx.correspondence("roundtrip-model-vs-JSONSchema", len(rcases), len(rbad), str([rdescr[i] for i in rbad[:4]])[:2500])
         if rbad:
             ctx.not_shown("correspondence roundtrip-model-vs-JSONSchema", str([rdescr[i] for i in rbad[:4]])[:2500])
-        out, _ = vlib.coq_bad_idx(rname + "o", "PyK_schema SchemaGen K9Proofs SchemaRoundtrip SchemaCorr", "From VerifGen Require Import K9.", "", rcases,
+        out, _ = _bad_idx(rname + "o", "PyK_schema SchemaGen K9Proofs SchemaRoundtrip SchemaCorr", "From VerifGen Require Import K9.", "", rcases,
                                   "rt_out", "js * string", shard=250, needs=["theories/SchemaCorr.vo"])
         ctx.notes.append(f"round trip correspondence: {len(rcases)} documents ({min(len(real_docs), ctx.budget(300, 2000))} emitted by the implementation), "
                          f"{len(out or [])} outside the modelled value domain (no claim), {sum(1 for d in rdescr if d['expected'] == 'ERR')} with from_dict raising")
